@@ -14,6 +14,7 @@ import Vgw.Go.Panic
 import Vgw.Go.StringsIdx
 import Vgw.Go.Strconv
 import Vgw.Go.TimeCompact
+import Vgw.Go.UrlEscape
 namespace Vgw.Model.Robust
 open Vgw Vgw.Go
 
@@ -81,20 +82,25 @@ def objectTagsLoop : List Bytes → List (Bytes × Bytes) → Chk (Option (List 
   | prt :: rest, acc =>
     let p := splitOn 61 prt                               -- strings.Split(prt, "=")
     if p.length ≠ 2 then .ok none else
-    (idx p 0).bind fun k =>
-    (idx p 1).bind fun v =>
-    if k.length > 128 ∨ v.length > 256 then .ok none else
-    (idx p 0).bind fun k' =>
-    (idx p 1).bind fun v' =>
-    objectTagsLoop rest (mapSet acc k' v')
+    (idx p 0).bind fun k0 =>
+    match queryUnescape k0 with                           -- url.QueryUnescape(p[0])
+    | none => .ok none
+    | some key =>
+      (idx p 1).bind fun v0 =>
+      match queryUnescape v0 with                         -- url.QueryUnescape(p[1])
+      | none => .ok none
+      | some value =>
+        if key.length > 128 ∨ value.length > 256 then .ok none else   -- limits on the DECODED strings
+        objectTagsLoop rest (mapSet acc key value)
 
-/-- backend.ParseObjectTags: `none` = ErrInvalidTag; the map as an association list -/
+/-- backend.ParseObjectTags (x-amz-tagging: the tag set as URL query parameters, keys and values
+percent-decoded): `none` = ErrInvalidTag; the map as an association list -/
 def parseObjectTags (t : Bytes) : Chk (Option (List (Bytes × Bytes))) :=
   if t = [] then .ok (some []) else objectTagsLoop (splitOn 38 t) []
 
 def objectTagsSites : List SiteExp := [
-  ⟨"backend/common.go", "ParseObjectTags", "index", "p[0]", 2, ""⟩,
-  ⟨"backend/common.go", "ParseObjectTags", "index", "p[1]", 2, ""⟩]
+  ⟨"backend/common.go", "ParseObjectTags", "index", "p[0]", 1, ""⟩,
+  ⟨"backend/common.go", "ParseObjectTags", "index", "p[1]", 1, ""⟩]
 
 inductive RangeRes where
   | ok (start length : Int)
